@@ -34,7 +34,7 @@ def units(tier):
     us = [("HIST", i, 3 if tier == "quick" else 4, j) for i in range(len(INITIAL)) for j in range(N_OPS_SHARD)]
     us += [("API", tier, i) for i in range(8)]
     us += [("S6", i) for i in range(16)]
-    us += S.doc_units(["S1", "S2", "S3", "S4", "S5", "ROOT"], tier, triples=False)
+    us += S.doc_units(["S1", "S1n", "S2", "S3", "S4", "S5", "ROOT"], tier, triples=False)
     return us
 
 
